@@ -63,9 +63,14 @@ def gen_cases(seed, n_grammars, n_strings, gen_kwargs=None, all_offsets=True, ma
     rng = random.Random(seed)
     gg = G.GrammarGen(rng, **(gen_kwargs or {}))
     out = []
-    for _ in range(n_grammars):
-        gr = gg.grammar(depth=depth)
-        strings = G.strings_for(rng, gr, n_strings, maxlen=maxlen)
+    for gi in range(n_grammars):
+        if gi % 6 == 3:
+            # the word-repetition family (frontier / termination logic of repetitions)
+            gr, strings = G.word_repetition(rng)
+            strings = strings[:max(n_strings, 12)]
+        else:
+            gr = gg.grammar(depth=depth)
+            strings = G.strings_for(rng, gr, n_strings, maxlen=maxlen)
         seen = set()
         cases = []
         for s in strings:
